@@ -34,7 +34,10 @@ Inductive skind := FS | SQL.   (* FilesystemMetadataStore: every write durable a
 (* template steps (what the translator extracts, per `for id in stale` loop body) and concrete steps *)
 Inductive pstep := PRmMeta | PRmEx | PData | PMeta | PEx | PCommitM.
 Inductive step := SRmMeta (m : mid) | SRmEx (m : mid) | SData (m : mid) | SMeta (m : mid) | SEx (m : mid)
-                | SCommitM (m : mid) | SCommitAll.
+                | SCommitM (m : mid) | SCommitAll
+                | STouchMeta (m : mid).   (* validate_meta: "Optimization: update mtime and path": the meta found is
+                                             rewritten (same hash, dependencies, interface hash, data_mtime) while
+                                             the graph is loaded, before any SCC is processed *)
 
 Record protocol := {
   p_seq : list (list pstep);     (* build.process_stale_scc: one list per loop over the SCC's modules *)
@@ -42,6 +45,9 @@ Record protocol := {
   p_impl : list (list pstep);    (* build.process_stale_scc_implementation *)
   p_data_fail_drops : bool;      (* write_cache returns (hash, None) when the data write fails, and the
                                     meta loops `continue` on None *)
+  p_rm_fail_drops : bool;        (* write_cache: a remove that raises an OSError other than FileNotFoundError
+                                    makes it return (hash, None): nothing more is written for the module *)
+  p_coord_commit : bool;         (* process_graph: manager.commit() before the workers start *)
   p_worker_iface_commit : bool;  (* worker.serve: manager.commit() after each SCC's interface phase *)
   p_worker_impl_commit : bool;   (* worker.serve: manager.commit() after the implementation phases of a batch *)
   p_final_commit : bool          (* build.build: finally: manager.commit() *)
@@ -63,6 +69,8 @@ Definition commit_if (b : bool) : list step := if b then [SCommitAll] else [].
 (* single-process build: SCCs in processing order, each a list of modules in processing order *)
 Definition gen_seq (P : protocol) (sccs : list (list mid)) : list step :=
   concat (map (loops_steps (p_seq P)) sccs) ++ commit_if (p_final_commit P).
+(* graph loading (single process / coordinator): metas rewritten by validate_meta *)
+Definition gen_load (touch : list mid) : list step := map STouchMeta touch.
 
 (* one worker: a list of batches (SccRequestMessage.scc_ids), each a list of SCCs *)
 Definition gen_batch (P : protocol) (batch : list (list mid)) : list step :=
@@ -73,10 +81,10 @@ Definition gen_worker (P : protocol) (batches : list (list (list mid))) : list s
   concat (map (gen_batch P) batches).
 
 Inductive shape := Seq (sccs : list (list mid)) | Par (workers : list (list (list (list mid)))).
-Definition procs_of (P : protocol) (sh : shape) : list (list step) :=
+Definition procs_of (P : protocol) (touch : list mid) (sh : shape) : list (list step) :=
   match sh with
-  | Seq sccs => [gen_seq P sccs]
-  | Par ws => map (gen_worker P) ws
+  | Seq sccs => [gen_load touch ++ gen_seq P sccs]
+  | Par ws => (gen_load touch ++ commit_if (p_coord_commit P)) :: map (gen_worker P) ws
   end.
 Definition shape_mods (sh : shape) : list mid :=
   match sh with
@@ -117,8 +125,25 @@ Section Exec.
 
   Definition exec_step (fl : bool) (st : stamp) (s : ms) (x : step) : ms :=
     match x with
-    | SRmMeta m' => if Nat.eqb m' m then wr k (set_rm None) s else s
-    | SRmEx m' => if Nat.eqb m' m then wr k (set_rx None) s else s
+    | SRmMeta m' =>
+        if Nat.eqb m' m then
+          if dropped s then s
+          else if fl then (if p_rm_fail_drops P then drop s else s)   (* the remove raises; nothing removed *)
+          else wr k (set_rm None) s
+        else s
+    | SRmEx m' =>
+        if Nat.eqb m' m then
+          if dropped s then s
+          else if fl then (if p_rm_fail_drops P then drop s else s)
+          else wr k (set_rx None) s
+        else s
+    | STouchMeta m' =>
+        if Nat.eqb m' m then
+          match rm (v s), rx (v s) with
+          | Some mr, Some _ => if fl then s else wr k (set_rm (Some mr)) s
+          | _, _ => s
+          end
+        else s
     | SData m' =>
         if Nat.eqb m' m then
           if dropped s then s
@@ -161,6 +186,7 @@ Definition run_proc (iface_of : inp -> ifc) (P : protocol) (k : skind) (shard : 
 
 Record round := {
   r_cur : mid -> inp;            (* the files of this run *)
+  r_touch : list mid;            (* modules whose meta validate_meta rewrites while loading (mtime changed, hash not) *)
   r_shape : shape;               (* which SCCs are processed, by which process, in which order *)
   r_fail : nat -> nat -> bool;   (* process, step index: this write fails *)
   r_stamp : nat -> nat -> stamp; (* process, step index: mtime the written data file gets *)
@@ -178,7 +204,7 @@ Fixpoint run_procs (iface_of : inp -> ifc) (P : protocol) (k : skind) (r : round
   end.
 
 Definition run_round (iface_of : inp -> ifc) (P : protocol) (k : skind) (r : round) (st : store) : store :=
-  fun m => run_procs iface_of P k r m 0 (procs_of P (r_shape r)) (st m).
+  fun m => run_procs iface_of P k r m 0 (procs_of P (r_touch r) (r_shape r)) (st m).
 
 Definition run_history (iface_of : inp -> ifc) (P : protocol) (k : skind) (h : list round) : store :=
   fold_left (fun st r => run_round iface_of P k r st) h empty_store.
@@ -216,12 +242,15 @@ Definition is_PA (p : pres) := match p with PA => true | _ => false end.
 Definition is_DU (x : dst) := match x with DU => true | _ => false end.
 Definition is_DG (x : dst) := match x with DG => true | _ => false end.
 
-Definition abs_p (drops : bool) (a : astate) (p : pstep) : option astate :=
+Definition flags := (bool * bool)%type.   (* (p_data_fail_drops, p_rm_fail_drops) *)
+Definition pflags (P : protocol) : flags := (p_data_fail_drops P, p_rm_fail_drops P).
+
+Definition abs_p (drops : flags) (a : astate) (p : pstep) : option astate :=
   let '(aM, aX, aD) := a in
   match p with
-  | PRmMeta => Some (PA, aX, aD)
-  | PRmEx => Some (aM, PA, aD)
-  | PData => if is_PA aM && is_DU aD then Some (aM, aX, if drops then DG else DB) else None
+  | PRmMeta => Some (if snd drops then PA else aM, aX, aD)   (* an ignored failing remove removes nothing *)
+  | PRmEx => Some (aM, if snd drops then PA else aX, aD)
+  | PData => if is_PA aM && is_DU aD then Some (aM, aX, if fst drops then DG else DB) else None
   | PMeta => if is_PA aX && negb (is_PU aM) && is_DG aD then Some (PN, aX, aD) else None
   | PEx => if negb (is_PU aM) && negb (is_PU aX) then Some (aM, PN, aD) else None
   | PCommitM => Some a
@@ -236,21 +265,22 @@ Definition step_view (m : mid) (x : step) : option pstep :=
   | SEx m' => if Nat.eqb m' m then Some PEx else None
   | SCommitM _ => None
   | SCommitAll => None
+  | STouchMeta _ => None
   end.
 
-Definition abs_step (drops : bool) (m : mid) (a : astate) (x : step) : option astate :=
+Definition abs_step (drops : flags) (m : mid) (a : astate) (x : step) : option astate :=
   match step_view m x with Some p => abs_p drops a p | None => Some a end.
 
-Fixpoint abs_run (drops : bool) (m : mid) (a : astate) (l : list step) : option astate :=
+Fixpoint abs_run (drops : flags) (m : mid) (a : astate) (l : list step) : option astate :=
   match l with
   | [] => Some a
   | x :: l' => match abs_step drops m a x with Some a' => abs_run drops m a' l' | None => None end
   end.
 
-Definition checked_steps (drops : bool) (m : mid) (l : list step) : bool :=
+Definition checked_steps (drops : flags) (m : mid) (l : list step) : bool :=
   match abs_run drops m a0 l with Some _ => true | None => false end.
 
-Fixpoint abs_ps (drops : bool) (a : astate) (l : list pstep) : option astate :=
+Fixpoint abs_ps (drops : flags) (a : astate) (l : list pstep) : option astate :=
   match l with
   | [] => Some a
   | p :: l' => match abs_p drops a p with Some a' => abs_ps drops a' l' | None => None end
@@ -260,19 +290,19 @@ Fixpoint abs_ps (drops : bool) (a : astate) (l : list pstep) : option astate :=
    and meta_ex), then settles the data file, then publishes meta, then meta_ex; checked for the
    sequential function and for interface phase followed by implementation phase *)
 Definition protocol_ok (P : protocol) : bool :=
-  match abs_ps (p_data_fail_drops P) a0 (concat (p_seq P)) with Some _ => true | None => false end
-  && match abs_ps (p_data_fail_drops P) a0 (concat (p_iface P) ++ concat (p_impl P)) with Some _ => true | None => false end.
+  match abs_ps (pflags P) a0 (concat (p_seq P)) with Some _ => true | None => false end
+  && match abs_ps (pflags P) a0 (concat (p_iface P) ++ concat (p_impl P)) with Some _ => true | None => false end.
 
 (* the order of the snapshot e70354f (and of every tree before the repair), and the repaired one *)
 Definition protocol_e70354f : protocol :=
   {| p_seq := [[PData; PCommitM]; [PMeta; PEx; PCommitM]];
      p_iface := [[PData; PCommitM]; [PMeta; PCommitM]];
      p_impl := [[PEx; PCommitM]];
-     p_data_fail_drops := true; p_worker_iface_commit := true; p_worker_impl_commit := true;
-     p_final_commit := true |}.
+     p_data_fail_drops := true; p_rm_fail_drops := true; p_coord_commit := true;
+     p_worker_iface_commit := true; p_worker_impl_commit := true; p_final_commit := true |}.
 Definition protocol_repaired : protocol :=
   {| p_seq := [[PRmMeta; PRmEx; PData; PCommitM]; [PMeta; PEx; PCommitM]];
      p_iface := [[PRmMeta; PRmEx; PData; PCommitM]; [PMeta; PCommitM]];
      p_impl := [[PEx; PCommitM]];
-     p_data_fail_drops := true; p_worker_iface_commit := true; p_worker_impl_commit := true;
-     p_final_commit := true |}.
+     p_data_fail_drops := true; p_rm_fail_drops := true; p_coord_commit := true;
+     p_worker_iface_commit := true; p_worker_impl_commit := true; p_final_commit := true |}.
